@@ -16,7 +16,10 @@ def run(ctx):
                                "-compression", "snappy"], False),
         # connections the proxy gives up itself (a node falls silent, the idle timeout passes) with requests outstanding: to the
         # retry policy that is a lost connection like any other (an idempotent request moves on to the next host)
-        ("idle-close-3x1", ["-random", "800" if t else "120", "-nodes", "3", "-numconns", "1", "-clients", "3", "-workers", "4", "-round", "60", "-idleclose", "-okbias", "2", "-nodrops"], False),
+        ("idle-close-3x1", ["-random", "800" if t else "120", "-nodes", "3", "-numconns", "1", "-clients", "3", "-workers", "4", "-round", "60", "-idleclose", "-okbias", "2", "-nodrops"], False, None,
+         # (the proxy's close notification reaches the request before the harness sees the connection go: the order of attempts
+         # is not judged in this stage, only what the client is told)
+         ["the client received an error of the proxy's own making"]),
         ("random-1x2", ["-random", "600" if t else "150", "-nodes", "1", "-numconns", "2", "-clients", "2", "-workers", "2", "-round", "75", "-okbias", "1"], False),
     ]
     rf.run_property(ctx, "C05", plans)
